@@ -1200,6 +1200,58 @@ def register(an):
             return sr
         return None
 
+    # ------------------------------------------------------------------ async: `fut.await` expansions
+    @suffix('core::future::into_future::IntoFuture::into_future', 'core::pin::Pin::new_unchecked', 'core::pin::Pin::new', 'core::pin::Pin::get_unchecked_mut',
+            'core::pin::Pin::get_mut', 'core::pin::Pin::as_mut', 'core::pin::Pin::into_inner')
+    def m_identity(an, t, args, frame, st, c):
+        if c.get('res') and c.get('res_local'):
+            return NotImplemented
+        return args[0]
+
+    @suffix('core::future::get_context')
+    def m_get_context(an, t, args, frame, st, c):
+        return TOP
+
+    @suffix('core::future::future::Future::poll')
+    def m_poll(an, t, args, frame, st, c):
+        """an awaited future is modelled as a call that eventually returns: poll yields Ready(result) (the Pending
+        iterations re-poll the same future and execute no other user code)"""
+        f = deref_val(an, args[0], frame, st)
+        res = None
+        if f[0] == 'anyof':
+            # the future is one of several coroutines (receiver type resolved by class hierarchy): analyse each, join
+            from .absint import join_states
+            from .lir import strip_turbofish
+            joined = None
+            for alt in f[1]:
+                l = an.prog.by_short.get(strip_turbofish(alt[1])) if alt[0] == 'closure' else None
+                if not l or len(l) != 1 or not l[0].coroutine or frame.chain().count(l[0].path) or frame.depth >= an.max_depth + 3:
+                    joined = None
+                    break
+                s2 = st.copy()
+                rv = an.call_body(l[0], [alt, TOP], frame, s2, dict(frame.subst), site=t.sp)
+                if rv is None:
+                    continue
+                s2.env[(frame.id, 2 * 10**6 + 1)] = rv
+                joined = s2 if joined is None else join_states(an, joined, s2, frame.id, 4 * 10**6 + (__import__('zlib').crc32((t.sp or '').encode()) % 1000), False)[0]
+            if joined is not None:
+                res = joined.env.pop((frame.id, 2 * 10**6 + 1), TOP)
+                st.env, st.mem, st.lo, st.hi, st.sets, st.cons = joined.env, joined.mem, joined.lo, joined.hi, joined.sets, joined.cons
+        if f[0] == 'closure':
+            from .lir import strip_turbofish
+            l = an.prog.by_short.get(strip_turbofish(f[1]))
+            if l and len(l) == 1 and l[0].coroutine and frame.depth < an.max_depth + 3 and frame.chain().count(l[0].path) == 0:
+                res = an.call_body(l[0], [f, TOP], frame, st, dict(frame.subst), site=t.sp)
+                if res is None:
+                    from .absint_interp import DIVERGE
+                    return DIVERGE
+        if res is None or res == TOP:
+            # unknown future: its output type is the payload type of Poll<T> in the destination
+            ty = an.subst_ty(t.dest.ty, frame)
+            head, targs = adt_head_and_args(ty)
+            res = an._mat_anon(targs[0], frame, st) if targs else TOP
+        return ('adt', 'core::task::poll::Poll', frozenset([0]), {(0, '0'): res}, None, ())
+
     # ------------------------------------------------------------------ formatting & misc (no panics of their own)
     @suffix('core::fmt::Formatter::write_str', 'core::fmt::Formatter::write_fmt', 'core::fmt::Write::write_str', 'core::fmt::Write::write_fmt',
             'core::fmt::rt::Argument::new_display', 'core::fmt::rt::Argument::new_debug', 'core::fmt::rt::Argument::new_lower_hex',
